@@ -4,7 +4,9 @@ import (
 	"fmt"
 	"math"
 	"math/big"
+	"reflect"
 	"sort"
+	"strings"
 
 	"github.com/zclconf/go-cty/cty"
 )
@@ -398,6 +400,8 @@ func refMember(ms []cty.Value, x cty.Value) int {
 // ---------------------------------------------------------------------------
 
 func runC02(c *Ctx) {
+	// history clause first, so that each worker process meets it in its initial state
+	histFamily(c, "operation methods and hashing after accepted and rejected calls", c02HistoryOps)
 	nums := numAlphabet(true) // the pairs are cheap: the full alphabet in both tiers
 	vals := mkNums(nums)
 	binOps := []string{"Add", "Subtract", "Multiply", "Divide", "Modulo"}
@@ -966,3 +970,112 @@ func c02Set(u *U, ety cty.Type, ms []cty.Value, alpha []cty.Value) {
 		}
 	}
 }
+
+// c02HistoryOps: the history clause of C02.  Operation methods on wholly known operands are
+// functions of their operands; the alphabet holds, per operation method, accepted and rejected
+// calls (a rejection is a recovered panic, after which a program carries on), the set
+// operations that go through hashing, and the documented rejections of hashing itself (a value
+// with a mark at or below its top level handed to Hash / ValueSet.Add / ValueSet.Has, a
+// capsule whose HashKey callback panics).
+func c02HistoryOps() []histOp {
+	var ops []histOp
+	perOp := map[string][2]int{}
+	c01Cases(false, func(oc opCase) {
+		k := perOp[oc.op.Name]
+		_, p, _ := callOp(oc.op, oc.args)
+		cls := 0
+		if p {
+			cls = 1
+		}
+		// simplest-first enumeration: keep the first few of each outcome class, and a
+		// thinned sample of the rest
+		k[cls]++
+		perOp[oc.op.Name] = k
+		if k[cls] > 4 && !(k[cls]%97 == 0 && k[cls] < 97*6) {
+			return
+		}
+		ops = append(ops, histOp{
+			desc: oc.op.Name + "(" + argsStr(oc.args) + ")",
+			run: func() string {
+				r, p, _ := callOp(oc.op, oc.args)
+				if p {
+					return "rejected"
+				}
+				return goStr(r)
+			},
+			perturbing: p,
+		})
+	})
+	ints := hashCollidingInts()
+	strs := []cty.Value{cty.StringVal("a"), cty.StringVal("b"), cty.StringVal("é")}
+	tup := func(a, b cty.Value) cty.Value { return cty.TupleVal([]cty.Value{a, b}) }
+	tups := []cty.Value{tup(cty.StringVal("a"), cty.NumberIntVal(1)), tup(cty.StringVal("b"), cty.NumberIntVal(2))}
+	member := func(name string, ms []cty.Value) {
+		for i := range ms {
+			i := i
+			ops = append(ops, histOp{
+				desc: fmt.Sprintf("SetVal(%s).HasElement(member %d)", name, i),
+				run: func() string {
+					s := cty.SetVal(ms)
+					return goStr(s.HasElement(ms[i])) + fmt.Sprint(" length ", s.LengthInt())
+				},
+				oracle: func(out string) string {
+					if out != fmt.Sprint("cty.True length ", len(ms)) {
+						return fmt.Sprintf("a set built from %d distinct values has them all as elements", len(ms))
+					}
+					return ""
+				},
+			})
+			ops = append(ops, histOp{
+				desc: fmt.Sprintf("ValueSet(%s) Add all, Has(member %d), Remove, Has", name, i),
+				run: func() string {
+					vs := cty.NewValueSet(ms[0].Type())
+					for _, m := range ms {
+						vs.Add(m)
+					}
+					a := vs.Has(ms[i])
+					vs.Remove(ms[i])
+					return fmt.Sprint(a, vs.Has(ms[i]), vs.Length())
+				},
+				oracle: func(out string) string {
+					if out != fmt.Sprint(true, false, len(ms)-1) {
+						return "Add, Has, Remove, Has on a value set must answer true, false and lose exactly one member"
+					}
+					return ""
+				},
+			})
+		}
+	}
+	member("colliding ints", ints[:3])
+	member("strings", strs)
+	member("tuples", tups)
+	rej := func(desc string, f func()) {
+		ops = append(ops, histOp{desc: desc, perturbing: true, run: func() string {
+			f()
+			return "returned"
+		}})
+	}
+	rej("Hash(marked string)", func() { cty.StringVal("secret").Mark(markM1).Hash() })
+	rej("Hash(tuple with a marked member)", func() { tup(cty.StringVal("a"), cty.NumberIntVal(1).Mark(markM1)).Hash() })
+	rej("ValueSet.Add(tuple with a marked member)", func() {
+		cty.NewValueSet(tups[0].Type()).Add(tup(cty.StringVal("zz"), cty.NumberIntVal(1).Mark(markM1)))
+	})
+	rej("ValueSet.Has(list with a marked member)", func() {
+		cty.NewValueSet(cty.List(cty.String)).Has(cty.ListVal([]cty.Value{cty.StringVal("q"), cty.StringVal("r").Mark(markM2)}))
+	})
+	rej("Hash(object with a long string and then a marked attribute)", func() {
+		cty.ObjectVal(map[string]cty.Value{"a": cty.StringVal(strings.Repeat("x", 100)), "b": cty.True.Mark(markM1)}).Hash()
+	})
+	rej("Hash(capsule whose HashKey panics)", func() { cty.CapsuleVal(capsPanicHashType, &capsNative{1}).Hash() })
+	rej("SetVal(capsules whose HashKey panics)", func() {
+		cty.SetVal([]cty.Value{cty.CapsuleVal(capsPanicHashType, &capsNative{1})})
+	})
+	return ops
+}
+
+// capsPanicHashType: a capsule type whose HashKey callback panics (a caller's bug the library
+// has to survive: the panic propagates, the process may recover and carry on).
+var capsPanicHashType = cty.CapsuleWithOps("panichash", reflect.TypeOf(capsNative{}), &cty.CapsuleOps{
+	RawEquals: func(a, b interface{}) bool { return a.(*capsNative).N == b.(*capsNative).N },
+	HashKey:   func(v interface{}) string { panic("HashKey callback failed") },
+})
